@@ -269,6 +269,18 @@ def replay_history(history: dict, hashseed=777, hashseed_ref=None) -> list:
 
 def replay_file(path: str) -> int:
     data = json.loads(open(path).read())
+    if data.get("kind") == "fresh_pair":
+        from sim.zygote import cold_call
+
+        a = cold_call("sim.c14", "run_reference", data["reference"], hashseed=data["hashseeds"]["a"])
+        b = cold_call("sim.c14", "run_reference", data["reference"], hashseed=data["hashseeds"]["b"])
+        diff = same_outcome(a, b)
+        if diff is not None:
+            print(f"VIOLATION property={PROP} replay={path}")
+            print("  " + jdump({"invariant": "I3", "what": diff, "hashseeds": data["hashseeds"]}))
+            return EXIT_VIOLATION
+        print(f"replay of {path}: both fresh processes agree")
+        return EXIT_OK
     hs = data.get("hashseeds") or {}
     vio = replay_history(data["history"], hashseed=hs.get("session", 777), hashseed_ref=hs.get("reference"))
     want = data.get("violation_key")
@@ -346,6 +358,7 @@ def run_check(tier: str, seed: int, runs: int | None = None, parallel: int | Non
 
         # cold references: zygote child == brand-new interpreter
         cold_ok = 0
+        fresh_pair_findings = []
         keys = sorted(engine.memo)
         pick = random.Random(H(seed, PROP, "cold")).sample(keys, min(T["cold_refs"], len(keys)))
         for key in pick:
@@ -353,8 +366,21 @@ def run_check(tier: str, seed: int, runs: int | None = None, parallel: int | Non
             if recipe is None:
                 continue
             co = engine.cold("sim.c14", "run_reference", recipe)
-            if same_outcome(co, engine.memo[key]) is not None:
-                raise HarnessError(f"cold reference differs from zygote reference for {key[:200]}")
+            diff = same_outcome(co, engine.memo[key])
+            if diff is not None:
+                # Either the zygote shortcut is wrong (harness) or the same call gives different
+                # results in two fresh processes that differ only in PYTHONHASHSEED (a violation of
+                # C14's determinism clause).  Decide by three cold pairs with exactly those seeds.
+                r_seed = engine.slots[0].R.hashseed
+                pairs = []
+                for _ in range(3):
+                    a = engine.cold("sim.c14", "run_reference", recipe, hashseed=r_seed)
+                    b = engine.cold("sim.c14", "run_reference", recipe, hashseed=engine.cold_seed)
+                    pairs.append((same_outcome(a, engine.memo[key]) is None, same_outcome(b, co) is None, same_outcome(a, b)))
+                if all(x and y and d is not None for x, y, d in pairs):
+                    fresh_pair_findings.append({"recipe": recipe, "hashseeds": [r_seed, engine.cold_seed], "what": diff})
+                    continue
+                raise HarnessError(f"cold reference differs from zygote reference and the difference is not a stable function of the hash seeds: {key[:200]} {pairs}")
             cold_ok += 1
 
         # violations: minimise, classify against known findings, report
@@ -388,6 +414,19 @@ def run_check(tier: str, seed: int, runs: int | None = None, parallel: int | Non
             path = write_replay(PROP, seed, tag, {"hashseeds": {"session": slot.S.hashseed, "reference": slot.R.hashseed}, "history": small, "violation": v2, "violation_key": vkey(v2), "original_ops": len(history["ops"]), "minimised_ops": len(small["ops"]), "shrink_candidates": spent, "replay_cmd": f"./check replay replays/{PROP}-{seed}-{tag}.json"})
             new_violation_lines.append(f"VIOLATION property={PROP} replay={path}")
             log(f"  violation: {jdump(v2)}")
+            exit_code = EXIT_VIOLATION
+        for k, fp in enumerate(fresh_pair_findings[:3]):
+            key = {"invariant": "I3", "op": fp["recipe"]["kind"], "what_class": _what_class(fp["what"]), "what": fp["what"]}
+            kf = match_known(open_known, key)
+            if kf is not None:
+                line = f"KNOWN-FINDING: property={PROP} {kf['what']}"
+                if line not in known_lines:
+                    known_lines.append(line)
+                continue
+            tag = f"fresh-{k}"
+            path = write_replay(PROP, seed, tag, {"kind": "fresh_pair", "reference": fp["recipe"], "hashseeds": {"a": fp["hashseeds"][0], "b": fp["hashseeds"][1]}, "violation": {"invariant": "I3", "what": fp["what"], "text": "the same call in two fresh processes that differ only in PYTHONHASHSEED gives different results"}, "violation_key": {k2: v for k2, v in key.items() if k2 != "what"}, "replay_cmd": f"./check replay replays/{PROP}-{seed}-{tag}.json"})
+            new_violation_lines.append(f"VIOLATION property={PROP} replay={path}")
+            log(f"  violation: fresh-process nondeterminism ({fp['what']}) for hash seeds {fp['hashseeds']}")
             exit_code = EXIT_VIOLATION
         from sim.c01_driver import _unreproduced_verdict
 
